@@ -14,7 +14,7 @@ import pipeline
 import scen
 
 PROP = "C15"
-MODES = ["none", "none", "none", "wrong_signer", "unauth_key", "inner_expired", "inner_link_missing", "inner_link_unauth",
+MODES = ["none", "none", "none", "wrong_signer", "unauth_key", "key_of_other_step", "key_of_other_step", "inner_expired", "inner_link_missing", "inner_link_unauth",
          "inner_link_corrupt", "inner_rule_fail", "links_in_parent_dir", "links_in_other_key_dir",
          "links_in_other_step_dir", "parent_requires_summary_product", "parent_disallows_summary_product",
          "inner_unsigned", "inner_content_edited"]
@@ -164,6 +164,18 @@ def shard(binpath, seed, sh, n):
             # evidence by a key that is not authorised for the step (and not in the key table)
             e["key"] = OUTSIDER
             child["signers"] = [OUTSIDER]
+        elif mode == "key_of_other_step":
+            # the sub-layout is signed and filed by a functionary whom the parent layout knows (key table) but has NOT
+            # authorised for this step
+            others = [k for k in FUNC if k not in st["auth"]]
+            if not others:
+                mode, expect = "none", "accept"
+            else:
+                k2 = rng.choice(others)
+                e["key"] = k2
+                child["signers"] = [k2]
+                if W.kid(k2) not in parent["layout"]["keys"]:
+                    parent["layout"]["keys"][W.kid(k2)] = W.pub(k2)
         elif mode == "inner_expired":
             child["layout"]["expires"] = "2020-01-01T00:00:00Z"
         elif mode == "inner_link_missing":
@@ -319,7 +331,7 @@ def main(ctx):
              "the contributed last product; positive controls compare the returned summary link exactly; every "
              "scenario is non-trivial; distinct by (layout, directory)",
         assumptions=["ground truth by construction; summary computed from the descriptor"],
-        required=["positive_control_accepted", "positive_at_tree_depth:1", "positive_at_tree_depth:2",
+        required=["positive_control_accepted", "mode:key_of_other_step", "positive_at_tree_depth:1", "positive_at_tree_depth:2",
                   "positive_at_tree_depth:3", "mode:wrong_signer", "mode:unauth_key", "mode:inner_expired",
                   "mode:inner_link_missing", "mode:links_in_parent_dir", "mode:links_in_other_key_dir",
                   "mode:parent_disallows_summary_product", "mode:parent_requires_summary_product", "mode:inner_rule_fail",
